@@ -190,6 +190,9 @@ fn settings_menu(dst: u8, rich: bool) -> Vec<Setting> {
         Setting::mods(ModSpec::Classic(None)),
         Setting { rate: Some(1.2), od: Some((9.1, false)), ..Setting::nm() },
     ];
+    // a Difficulty that itself carries passed_objects(2): whatever the calculator then covers, every step must still equal the
+    // one-shot calculation of the reached prefix
+    v.push(Setting { passed: Some(2), ..Setting::nm() });
     // mods that switch skills or formulas off
     if dst <= 1 {
         v.push(Setting::bits(settings::RX));
